@@ -438,6 +438,17 @@ func subFrames() mon.Sub {
 				c.Fail("frames/read/consumed", "ReadFrame consumed more or fewer bytes than header+length", det)
 				return
 			}
+			// the Must* wrappers are the same codec
+			var mb bytes.Buffer
+			ws.MustWriteFrame(&mb, f1)
+			if !bytes.Equal(mb.Bytes(), w1) || !bytes.Equal(ws.MustCompileFrame(f2), w2) {
+				c.Fail("frames/must/write", "MustWriteFrame / MustCompileFrame differ from WriteFrame / CompileFrame", det)
+				return
+			}
+			if got := ws.MustReadFrame(bytes.NewReader(w2)); got.Header != f2.Header || !bytes.Equal(got.Payload, f2.Payload) {
+				c.Fail("frames/must/read", "MustReadFrame differs from ReadFrame", det)
+				return
+			}
 			c.Classf("s1=%d s2=%d m=%v plan=%s", s1, s2, masked, plan.Kind)
 			c.Sample(det)
 		},
